@@ -141,6 +141,8 @@ pub struct CheckSpec {
   pub rule: &'static str,
   pub assumptions: Vec<&'static str>,
   pub configs: Vec<Config>,
+  /// Counters that a run of this check is expected to drive above zero (reported under zero_probes otherwise).
+  pub probes: Vec<&'static str>,
 }
 
 #[derive(Clone, Debug, Serialize, Deserialize)]
@@ -430,7 +432,8 @@ pub fn run_check<E: Engine>(engine: &E, spec: &CheckSpec, tier: &str) -> i32 {
     }
   }
   let wall = t0.elapsed().as_secs_f64();
-  let zero_probes: Vec<String> = Vec::new();
+  let zero_probes: Vec<String> = spec.probes.iter().filter(|p| total.stats.get(p) == 0).map(|p| p.to_string()).collect();
+  if !zero_probes.is_empty() { println!("NOTE: reach probes that stayed at zero in this run: {:?}", zero_probes); }
   let evidence = json!({
     "property_id": prop,
     "tier": if tier == "thorough" { "thorough" } else { "quick" },
